@@ -39,6 +39,25 @@ def histories(ctx):
         m = molgen.embedded(smi, nconf=3, seed=5, keep_hs=True)
         if m is not None:
             mols.append((smi, molfacts.gridded(m)))
+    # twins: other Python objects holding the SAME compound (an identical copy; a copy with its atoms renumbered): anything a
+    # reused fingerprinter keeps per molecule must be keyed by the object, not by what the molecule looks like
+    twins = {}
+    for i in range(len(mols)):
+        smi, m = mols[i]
+        n = m.GetNumAtoms()
+        perm = list(range(n))
+        rng.shuffle(perm)
+        tw = [(smi + ' (copy)', Chem.Mol(m))]
+        if n > 1:
+            tw.append((smi + ' (renumbered)', Chem.RenumberAtoms(m, perm)))
+            tw.append((smi + ' (reversed)', Chem.RenumberAtoms(m, list(range(n))[::-1])))
+        twins[i] = []
+        for t in tw:
+            twins[i].append(len(mols))
+            mols.append(t)
+    for i in list(twins):
+        for j in twins[i]:
+            twins[j] = [i] + [x for x in twins[i] if x != j]
     nsmall = len(mols)
     # flexible shipped molecules: their conformers stop at different levels, which is what stale per-level state needs
     from rdkit import Chem
@@ -71,6 +90,9 @@ def histories(ctx):
         for step in range(rng.choice([2, 3, 4, 6]) if ctx.quick else rng.choice([2, 4, 8, 12])):
             if step > 0 and rng.random() < 0.6:
                 pass                  # stay on the same molecule object (another conformer): only conformer-level state may be reused
+            elif step > 0 and mi in twins and rng.random() < 0.5:
+                mi = rng.choice(twins[mi])          # the same compound in another object
+                stats['twin_switch'] = stats.get('twin_switch', 0) + 1
             else:
                 mi = rng.randrange(nsmall, len(mols)) if big and rng.random() < 0.8 else rng.randrange(nsmall)
             smi, m = mols[mi]
@@ -189,6 +211,69 @@ def hash_seeds(ctx):
     return False
 
 
+WORKER_ORDER = r"""
+import sys, json
+sys.modules['mpi4py'] = None
+sys.path.insert(0, %(harness)r)
+import core; core.setup_env()
+from rdkit import Chem
+from rdkit.Chem import AllChem
+from e3fp.fingerprint.fprinter import Fingerprinter
+import m1lib
+out = {}
+for smi in %(smiles)r:
+    m = Chem.MolFromSmiles(smi)
+    AllChem.Compute2DCoords(m)
+    for lv, stereo in ((1, False), (3, True)):
+        try:
+            f = Fingerprinter(level=lv, stereo=stereo)
+            f.run(0, m)
+            out['%%s|%%d|%%s' %% (smi, lv, stereo)] = {str(l): v for l, v in m1lib.all_level_ids(f).items()}
+        except Exception as e:
+            out['%%s|%%d|%%s' %% (smi, lv, stereo)] = 'raises ' + type(e).__name__
+print('RESULT' + json.dumps(out, sort_keys=True))
+"""
+
+# molecules with bond types outside the published table (dative, quadruple, zero-order) next to ordinary ones: whatever the
+# library does with them (today: KeyError, the known C02 finding) must not depend on what the process fingerprinted before
+ORDER_SMILES = ['CCO', 'CN(C)(C)->B', 'c1ccncc1', 'Cl[Re]$[Re]Cl', 'CC(N)C(=O)O', '[NH3]->[Cu]', 'C[C@H](O)CN', 'N->[Pt](Cl)(Cl)<-N']
+
+
+def process_orders(ctx):
+    """The same jobs submitted in different ORDERS to fresh interpreters: a molecule's result may not depend on what the
+    process has seen before (module-level tables, caches)."""
+    rng = ctx.rng
+    orders = [list(ORDER_SMILES), list(reversed(ORDER_SMILES))]
+    for _ in range(ctx.n(2, 6)):
+        o = list(ORDER_SMILES)
+        rng.shuffle(o)
+        orders.append(o)
+    singles = [[s] for s in ORDER_SMILES[:ctx.n(4, 8)]]
+    procs = []
+    for o in orders + singles:
+        code = WORKER_ORDER % {'harness': os.path.join(core.VERIF, 'harness'), 'smiles': o}
+        procs.append((o, subprocess.Popen([sys.executable, '-B', '-c', code], stdout=subprocess.PIPE, stderr=subprocess.DEVNULL, text=True)))
+    seen = {}
+    found = False
+    for o, p in procs:
+        so, _ = p.communicate(timeout=900)
+        line = [l for l in so.split('\n') if l.startswith('RESULT')]
+        if not line:
+            ctx.fail('a worker process of the submission-order test produced no result', {'order': o}, no_input=True, kind='harness-error')
+            return True
+        res = json.loads(line[0][6:])
+        for k, v in res.items():
+            ctx.count(('order', tuple(o), k), True)
+            if k in seen and seen[k][1] != v:
+                found = True
+                ctx.fail('the result for one molecule depends on which molecules the process fingerprinted before it',
+                         {'job (smiles|level|stereo)': k, 'order_a': seen[k][0], 'result_a': seen[k][1], 'order_b': o, 'result_b': v}, finding_key='C04:submission-order')
+            seen.setdefault(k, (o, v))
+    ctx.coverage.setdefault('input_distribution', {})['submission_orders'] = {'orders': len(orders), 'single_molecule_processes': len(singles),
+                                                                              'jobs_raising': sorted(k for k, (o, v) in seen.items() if isinstance(v, str))[:6]}
+    return found
+
+
 def concurrent(ctx):
     """Independent jobs in threads (tiny switch interval) and in a fork-based process pool, against the serial results."""
     import concurrent.futures as cf
@@ -246,10 +331,11 @@ def run(ctx):
     ok, res = core.proof_step(ctx)
     found = histories(ctx)
     found |= hash_seeds(ctx)
+    found |= process_orders(ctx)
     found |= concurrent(ctx)
     ctx.coverage['rule'] = ('random histories of run() calls on one Fingerprinter (conformer object / int id / same conformer object again / mol=None, queries in between) over '
                             '%d small molecules x 3 conformers: every run compared with a fresh object, the last with the Coq object model (check_history); the in-place-mutation '
-                            'history; the same jobs under several PYTHONHASHSEED values in subprocesses; in thread pools with a 1e-6 s switch interval; in a fork process pool; '
+                            'history; the same jobs under several PYTHONHASHSEED values in subprocesses; the same jobs (including molecules with bond types outside the table) submitted in different orders to fresh interpreters and alone; in thread pools with a 1e-6 s switch interval; in a fork process pool; '
                             'mutable default arguments compared before/after each history; non-trivial: any run after the first of a history' % len(SMALL))
     ctx.assumptions += ['thread and process interleavings are exercised, not proved: the model has no shared state to race on; that the implementation has none rests on these runs (partial)',
                         'an identity token stands for `mol is self.mol`; GetOwningMol() returns a new Python object on each call, so run(conf) without mol always re-initialises']
